@@ -99,4 +99,9 @@ Section S.
   Proof.
     unfold safeb. intros V. apply andb_prop in V as [_ E]. exact (refcounts_safe_sound E).
   Qed.
+
+  Theorem safeb_short_l1_sound : safeb_short_l1 rd h = true -> forall c, refs rd h c <= stored rd h c.
+  Proof.
+    unfold safeb_short_l1. intros V. apply andb_prop in V as [_ E]. exact (refcounts_safe_sound E).
+  Qed.
 End S.
